@@ -2,7 +2,7 @@
    a REQ is never met with silence, the subscription limit holds.
    Statements are about RELAY.Model (every schedule = every list of operations accepted by
    `run`); proofs are in RELAY/Proofs.v. *)
-From NR Require Import Lib.Base Lib.Nip01 Filt.Model Live.Model RELAY.Model RELAY.Proofs RELAY.Eose.
+From NR Require Import Lib.Base Lib.Nip01 Gen.Web Filt.Model Live.Model RELAY.Model RELAY.Proofs RELAY.Eose.
 Open Scope Z_scope.
 
 (* (e) in every reachable state every connection holds at most subscription_limit subscriptions *)
@@ -69,6 +69,14 @@ Proof.
   destruct (get_sub sid (del_sub sid (c_subs x))); [right; discriminate | left; reflexivity].
 Qed.
 Print Assumptions C13_close_removes.
+
+(* Tie of an assumption built into the model: `emit` (a query task or a live push putting a frame on the connection's
+   answer queue) is total - it never waits for room, so a row step is enabled whenever its task runs and the connection is open
+   (C13_row_step).  The translator confirms on every run that start_client creates that queue as `asyncio.Queue()` without
+   a size; with a bounded queue a task can be held at `put`, which the model has no state for. *)
+Theorem C13_answer_queue_tie : Gen.Web.answer_queue_unbounded = true.
+Proof. vm_compute. reflexivity. Qed.
+Print Assumptions C13_answer_queue_tie.
 
 (* non-vacuity: a concrete schedule reaching a non-trivial state *)
 Example C13_reachable :
